@@ -287,6 +287,12 @@ fn server_log(stream: &[u8], sched: &[usize]) -> String {
     let mut k = 0;
     while pos < stream.len() {
         let want = if sched.is_empty() { 0 } else { sched[k % sched.len()] };
+        if want == 999_999 {
+            // a pause of the client (e.g. waiting for `100 Continue` that never comes), no bytes
+            std::thread::sleep(std::time::Duration::from_millis(60));
+            k += 1;
+            continue;
+        }
         let n = if want == 0 { stream.len() - pos } else { want.min(stream.len() - pos) };
         if client.write_all(&stream[pos..pos + n]).is_err() {
             break;
